@@ -16,7 +16,7 @@ PROPS = {
     "C07": [(hs_server, ["C07_", "X_NoPanic"])],
     "C09": [(hs_server, ["C09_"]), (hs_client, ["C09_"]), (transport.Attr, ["C09_Transport"])],
     "C10": [(hs_server, ["C10_"])],
-    "C14": [(hs_server, ["C14_"]), (srvlife, ["C18_CallbacksExact"])],
+    "C14": [(hs_server, ["C14_"]), (srvlife, ["C18_CallbacksExact"]), (transport, ["C14_Transport"])],
     "C06": [(hs_server, ["C06_"]), (hs_client, ["C06_"]), (chan.C06, ["C06_"])],
     "C08": [(hs_client, ["C08_"]), (clientlife, ["C08_Client"])],
     "C01": [(codec.C01, ["C01_", "X_Harness"])],
